@@ -241,6 +241,15 @@ func spaoCases(r *lib.Rand, now int64, malformed bool) []spaoCase {
 		add("e2e:auth:len27", au(authSpec{spi: srv, alg: alg, mac: "valid", dataLen: 27}))
 		add("e2e:auth:len12", au(authSpec{spi: srv, alg: alg, mac: "valid", dataLen: 12}))
 		add("e2e:auth:len32", au(authSpec{spi: srv, alg: alg, mac: "valid", dataLen: 32}))
+		// a path of an unregistered type (slayers decodes it as a raw path): the MAC cannot be computed
+		add("e2e:auth:path-type-4", func(v *scionVariant) {
+			v.auth = &authSpec{spi: srv, alg: alg, mac: "valid"}
+			v.rawPathType = 4
+		})
+		add("e2e:auth:path-type-200", func(v *scionVariant) {
+			v.auth = &authSpec{spi: srv, alg: alg, mac: "valid"}
+			v.rawPathType = 200
+		})
 	}
 	_ = now
 	return cs
